@@ -23,6 +23,8 @@ plugins' handling of disabled actuators, callbacks.
 """
 from __future__ import annotations
 
+import re
+
 from .. import callgraph, cir, engine, modref, paths, r_misc, xmacro
 from ..cfront import AnalysisError
 
@@ -550,9 +552,12 @@ def indexdim(res, uf):
     if not {"nu", "nout", "na"} <= io:
         raise AnalysisError(f"actuator I/O dimensions missing from MJMODEL_REFERENCES: {sorted(io)}")
     dims = {}
+    ncol = {}
     for table in ("MJMODEL_POINTERS", "MJDATA_POINTERS"):
         for r in xmacro.pointers(table):
             dims[r["name"]] = r["nr"]
+            if str(r.get("nc", "")).isdigit():
+                ncol[r["name"]] = int(r["nc"])
     for need, d in (("ctrl", "nu"), ("act", "na"), ("act_dot", "na")):
         if dims.get(need) != d:
             raise AnalysisError(f"X-macro row dimension of {need} is {dims.get(need)}, expected {d}")
@@ -564,6 +569,7 @@ def indexdim(res, uf):
     want_adr = {d: a for a, d in adr_dim.items()}
     sizes = set(xmacro.sizes())
     nsites = 0
+    nparam_sites = [0]
     _pv = {}
 
     def _prov_of(fname):
@@ -681,6 +687,18 @@ def indexdim(res, uf):
             if off is not None:
                 p = p | pv.prov(off)
             p = _resolve_params(p, name)
+            # a parameter the function itself range-checks against m->nactuator is an actuator id
+            for t in [t for t in p if t.startswith("param:")]:
+                pn = t[6:]
+                for x in cir.walk(fn):
+                    if x.get("k") == "BinaryOperator" and x.get("op") in ("<", "<=", ">", ">=") and \
+                            {cir.text(cir.strip(k_)) for k_ in cir.kids(x)} == {pn, "m->nactuator"}:
+                        p = (p - {t}) | {"nactuator"}
+                        break
+            if any(t.startswith("param:") for t in p) and fn.get("storageClass") != "static":
+                # an index handed in by the caller of an exported function: its meaning is the callers' contract
+                nparam_sites[0] += 1
+                continue
             if d in io:
                 good = bool(p) and p <= {d}
                 if not p and off is None and cir.strip(idx).get("k") == "IntegerLiteral":
@@ -693,6 +711,22 @@ def indexdim(res, uf):
                 good = not wrong
                 why = (f"`{cir.text(n)[:90]}`: {fld} has nactuator rows but the index runs over {sorted(wrong)}: rows are "
                        f"missed or read past the end when that dimension differs from nactuator")
+            # stride: an array with nc > 1 columns is addressed as nc*row + column; a single index variable with coefficient 1
+            # addresses element `row` of the flattened array, i.e. row/nc, column row%nc
+            ncols = ncol.get(fld)
+            if good and ncols and ncols > 1 and off is None:
+                from .. import linform as _lf
+                try:
+                    lf_ = _lf.linform(idx, {})
+                except Exception:
+                    lf_ = None
+                if lf_:
+                    terms = {k_: v_ for k_, v_ in lf_.items() if k_ != "1"}
+                    if len(terms) == 1 and list(terms.values())[0] == 1 and re.fullmatch(r"[A-Za-z_]\w*", list(terms)[0] or ""):
+                        good = False
+                        why = (f"`{cir.text(n)[:90]}`: {fld} has {ncols} columns per row (X-macro) but is indexed by the bare row index "
+                               f"`{list(terms)[0]}`: this addresses row {list(terms)[0]}/{ncols}, column {list(terms)[0]}%{ncols}; the "
+                               f"other accesses use {ncols}*row + column")
             cur = per.setdefault(fld, [True, None, None])
             if not good and cur[0]:
                 per[fld] = [False, n.get("line"), why]
@@ -701,8 +735,10 @@ def indexdim(res, uf):
             if good:
                 res.ok("R-INDEXDIM", c, {"rows": dims.get(fld, fld)})
             else:
-                res.bad("R-INDEXDIM", c, FWD, line, why)
+                res.bad("R-INDEXDIM", c, uf.tu, line, why)
     res.count("index_sites", nsites)
+    res.count("index_sites_left_to_callers", nparam_sites[0])
+    return nsites
 
 
 def run(res, tier):
@@ -719,6 +755,10 @@ def run(res, tier):
              floor=20)
     check_actuation(res, uf, g)
     indexdim(res, uf)
+    # the transmission stage (moment arms, lengths) indexes the same arrays
+    indexdim(res, engine.unit("src/engine/engine_core_smooth.c"))
+    # the length-range computation (muscle gain / bias read actuator_lengthrange) writes the same arrays
+    indexdim(res, engine.unit("src/engine/engine_setconst.c"))
     res.count("functions", len(uf.funcs))
     res.explanation = (
         "All-paths rules over mj_fwdActuation with small typestates (copy filled / clamp passed / disable flag / bad-value "
